@@ -52,6 +52,9 @@ def gen(rng, tier, i):
         where = rng.choice(('', 'd/', 'd/sub/'))
         p.file('%sinc%d.c' % (where, k), '#include "%s"\nvoid f() { }\n' % nm)
         incfiles.append('%sinc%d' % (where, k))
+    # what the hostile names point at exists (above the mudlib, inside the run's private directory): a check that is skipped
+    # ends in an open() of these files, not in "no such file"
+    p.file('../pl1.c', 'int outside() { return 4242; }\n'); p.file('../x.h', '#define OUTSIDE 1\n'); p.file('../../x.h', '#define OUTSIDE 2\n')
     p.file('inh1.c', 'inherit "/../pl1";\nvoid f() { }\n')
     p.file('inh2.c', 'inherit "../pl1";\nvoid f() { }\n')
     p.file('inh3.c', 'inherit "/etc/passwd";\nvoid f() { }\n')
